@@ -468,6 +468,45 @@ theorem closest_spec (vdict : List (Int × Val)) (x : Val) (i : Int) (hn : (vdic
       · rw [e]; exact h2
       · exact h3 jw e
 
+/-- tie rule of the fold: the result is the start value when nothing is strictly closer, otherwise the *first*
+element that is strictly closer than everything before it and at least as close as everything after it -/
+theorem closestFrom_first (x : Val) : ∀ (cs : List (Int × Val)) (best : Int × Val),
+    (closestFrom best cs x = best ∧ ∀ e ∈ cs, dist best.2 x ≤ dist e.2 x) ∨
+    (∃ pre post, cs = pre ++ closestFrom best cs x :: post ∧
+      dist (closestFrom best cs x).2 x < dist best.2 x ∧
+      (∀ e ∈ pre, dist (closestFrom best cs x).2 x < dist e.2 x) ∧
+      ∀ e ∈ post, dist (closestFrom best cs x).2 x ≤ dist e.2 x) := by
+  intro cs
+  induction cs with
+  | nil => intro best; exact Or.inl ⟨rfl, by simp⟩
+  | cons c cs ih =>
+    intro best
+    simp only [closestFrom]
+    by_cases h : dist c.2 x < dist best.2 x
+    · simp only [h, if_true]
+      right
+      rcases ih c with ⟨hr, hall⟩ | ⟨pre, post, heq, hlt, hpre, hpost⟩
+      · exact ⟨[], cs, by rw [hr]; rfl, by rw [hr]; exact h, by simp, by rw [hr]; exact hall⟩
+      · refine ⟨c :: pre, post, by rw [List.cons_append, ← heq], by omega, ?_, hpost⟩
+        intro e he
+        rcases List.mem_cons.1 he with e1 | e1
+        · rw [e1]; exact hlt
+        · exact hpre e e1
+    · simp only [h, if_false]
+      rcases ih best with ⟨hr, hall⟩ | ⟨pre, post, heq, hlt, hpre, hpost⟩
+      · left
+        refine ⟨hr, ?_⟩
+        intro e he
+        rcases List.mem_cons.1 he with e1 | e1
+        · rw [e1]; omega
+        · exact hall e e1
+      · right
+        refine ⟨c :: pre, post, by rw [List.cons_append, ← heq], hlt, ?_, hpost⟩
+        intro e he
+        rcases List.mem_cons.1 he with e1 | e1
+        · rw [e1]; omega
+        · exact hpre e e1
+
 /-- invariant of the float/enum pair -/
 def FInv (cfg : FCfg) (s : FSt) : Prop := ShowsIndexValue cfg.vdict s.idx s.value
 
